@@ -84,6 +84,7 @@ let parse_cmd (s : string) : cmd =
   | ["cacheload"; k] -> CCacheLoad (n_of_string k)
   | ["setgen"; g] -> CSetGen (n_of_string g)
   | ["move"; h; h2] -> CMove (n_of_string h, n_of_string h2)
+  | ["join"; t] -> CJoin (n_of_string t)
   | _ -> failwith ("bad command: " ^ s)
 
 let () =
